@@ -92,7 +92,7 @@ class Cli:
                         and (n_sites == 1 or (n_sites > 1 and 'fnval' not in sites.get(cb.id, []) and effect_free(cb)))
                         and cb.id not in w.reachable(edges.get(cb.id, ())) and not cb.j.get('impl_trait') and cb.short not in KEEP_UNITS)
             gone = {b.id for b in orig if helper(b)}
-            self._fns = [inline.inline_body(w, b, lambda cb, t, d: cb.id in gone, desugar=False) for b in orig if b.id not in gone]
+            self._fns = [inline.inline_body(w, b, lambda cb, t, d: cb.id in gone, desugar=False, adaptors=True) for b in orig if b.id not in gone]
             self.expanded = sorted(gone)
         return self._fns
 
